@@ -164,12 +164,29 @@ class Sim:
         for x, r in self.reg.items():
             if r: item(x)
         return m
+    def cycle_of(self, x):
+        """the ownership ring through x (list starting at x), or None"""
+        out = [x]; y = self.owns.get(x)
+        while y is not None and y not in out:
+            out.append(y); y = self.owns.get(y)
+        return out if y == x else None
+    def is_top(self, x):
+        """unowned, or the representative (smallest identity) of an ownership ring"""
+        if x not in self.owner: return True
+        c = self.cycle_of(x)
+        return c is not None and x == min(c) and all(self.owner.get(self.owns[m]) == m for m in c)
+    def own(self, a, t):
+        old = self.owns.get(a)
+        if old is not None and self.owner.get(old) == a: del self.owner[old]
+        if t is None: self.owns.pop(a, None)
+        else: self.owns[a] = t; self.owner[t] = a
+        return f"o {a} {'-' if t is None else t}"
     def protected_marks(self):
         """whole ownership trees of the tops the program can reach (held, root or the anchor): a marked set that is
         closed under ownership in both directions (a root inside a garbage tree is not in it)"""
         m = set()
         for t in self.live:
-            if t in self.owner: continue
+            if not self.is_top(t): continue
             if t in self.held or self.reg.get(t):
                 m.update(y for y in self.tree(t) if y in self.reg)
         return m
@@ -228,10 +245,10 @@ def gen_history(rng, primes, nops, mode=None, ordered=None, stops=False, nslots_
     def take_slot():
         if not free_slots: return None
         return free_slots.pop(rng.randrange(len(free_slots)) if rng.random() < 0.5 else -1)
-    def tops(): return [x for x in sim.live if x not in sim.owner and x != 0]
+    def tops(): return [x for x in sim.live if sim.is_top(x) and x != 0]
     def tree_has(top, pred): return any(pred(x) for x in sim.tree(top))
     def set_held(ids):
-        ids = [x for x in dict.fromkeys(ids) if x in sim.live and x not in sim.owner]
+        ids = [x for x in dict.fromkeys(ids) if x in sim.live and sim.is_top(x)]
         # raw tops stay held until the program deletes them (the program's own pointers)
         for x in tops():
             if sim.how[x] == 'w' and x not in ids: ids.append(x)
@@ -248,8 +265,9 @@ def gen_history(rng, primes, nops, mode=None, ordered=None, stops=False, nslots_
             # allocation; possibly an owner of a currently held top (Box -> ... -> probe chains grow this way)
             cand = [x for x in sim.held if x in sim.live and sim.how[x] != 'w' and x not in sim.owner and x != 0]
             make_box = cand and rng.random() < chain_bias
-            if ordered: kind = 'b' if make_box else 'p'
-            else: kind = rng.choice(['b', 'B']) if make_box else 'p'
+            empty_box = (not make_box) and rng.random() < 0.12      # a Box with no pointee yet: can close a ring later
+            if ordered: kind = 'b' if (make_box or empty_box) else 'p'
+            else: kind = rng.choice(['b', 'B']) if (make_box or empty_box) else 'p'
             if not sim.running: how = 'w'          # new/new_root while stopped is the territory of known finding F23
             else: how = rng.choice(['s', 's', 's', 's', 'r', 'w'])
             if stops and how == 'r' and make_box: how = 's'
@@ -272,8 +290,24 @@ def gen_history(rng, primes, nops, mode=None, ordered=None, stops=False, nslots_
             kept = [h for h in sim.held if h != owned]
             if how == 'w' or rng.random() < keep: kept.append(oid)
             set_held(kept)
+        elif r < 0.47:
+            # close an ownership ring: the empty Box at the bottom of a held chain is pointed at the top of the chain
+            # (a single empty Box becomes a box owning itself).  No raw members (a raw object is outside the collector).
+            cand = []
+            for t in sim.held:
+                if t not in sim.live or t in sim.owner or t == 0: continue
+                tr = sim.tree(t); last = tr[-1]
+                if sim.kind[last] in 'bB' and sim.owns.get(last) is None and all(sim.how[y] != 'w' and y in sim.live for y in tr) \
+                   and not (stops and any(sim.how[y] == 'r' for y in tr)):
+                    cand.append((t, last))
+            if not cand: continue
+            t, last = rng.choice(cand)
+            lines.append(sim.own(last, t))
+            rep = min(sim.tree(t))
+            kept = [h for h in sim.held if h != t] + ([rep] if rng.random() < 0.6 else [])
+            set_held(kept)
         elif r < 0.60 and live_tops:
-            # explicit deletion of a top (never an owned object, never twice)
+            # explicit deletion of a top or of the representative of a ring (never another owned object, never twice)
             x = rng.choice(live_tops)
             if x in sim.deleted: continue
             how = sim.how[x]
@@ -312,7 +346,7 @@ def gen_history(rng, primes, nops, mode=None, ordered=None, stops=False, nslots_
     # the program's obligations before teardown: collector running, roots and raws deleted
     if not sim.running: sim.running = True; lines.append('t')
     for x in sorted(tops()):
-        if x in sim.live and x not in sim.owner and x not in sim.deleted and sim.how[x] in ('r', 'w'):
+        if x in sim.live and sim.is_top(x) and x not in sim.deleted and sim.how[x] in ('r', 'w'):
             drop(x)
             lines.append(sim.delete(x, sim.how[x]))
     # a root that is owned is deleted by its owner; owners that are garbage go at teardown. The anchor goes last.
@@ -349,6 +383,38 @@ def chain_history(rng, primes, depth, slots, how_top='s', via='c', mode='main'):
     lines.append(sim.teardown())
     return lines, sim.cov, sim
 
+def ring_history(rng, primes, n, slots, hows, via='c', mode='main', ordered=True, kinds=None):
+    """a ring of n boxes (n = 1: a box owning itself) at the given arena slots, reclaimed through `via`:
+    c = forced collection, g = real mark phase, e = teardown, d = the program deletes one member"""
+    sim = Sim(ordered, primes)
+    lines = [f"H {mode} {'ord' if ordered else 'uno'}"]
+    lines.append(sim.new(0, 'a', 'r', slots[0], None))
+    prev = None
+    for i in range(n):
+        oid = i + 1
+        k = (kinds[i] if kinds else 'b')
+        lines.append(sim.new(oid, k, hows[i], slots[i + 1] if k != 'B' else 0, prev))
+        lines.append(sim.hold([oid]))
+        prev = oid
+    lines.append(sim.own(1, n))                  # close the ring: 1 -> n -> n-1 -> ... -> 1
+    lines.append(sim.hold([1]))
+    if via == 'c':
+        lines.append(sim.hold([])); lines.append(sim.collect(sim.protected_marks()))
+    elif via == 'g':
+        lines.append(sim.hold([])); lines.append(sim.gc())
+    elif via == 'd':
+        m = rng.randrange(1, n + 1)
+        lines.append(sim.hold([])); lines.append(sim.delete(m, hows[m - 1]))
+    else:
+        lines.append(sim.hold([]))
+    # a ring with a root member is not collected: the program deletes that member (the cascade takes the ring)
+    for i in range(n):
+        if (i + 1) in sim.live and hows[i] == 'r' and (i + 1) not in sim.deleted:
+            lines.append(sim.delete(i + 1, 'r'))
+    lines.append(sim.delete(0, 'r'))
+    lines.append(sim.teardown())
+    return lines, sim.cov, sim
+
 def _nontrivial(cov):
     return cov['owner_first'] + cov['owned_first'] + cov['reg_path'] > 0
 
@@ -375,14 +441,15 @@ class C06(Spec):
             '(without new/new_root and without deleting roots while stopped: known finding F23), program deletes its roots and raws, teardown; '
             'in the main thread (Cello_Exit) and in worker threads (Thread_Init_Run); arena slot windows chosen so that addresses collide modulo the '
             'registry sizes; (b) Box->...->probe chains of depth 2..6 for every way of reclaiming them (forced collection, real mark, explicit del, '
-            'teardown) under random address permutations (both pending orders). non-trivial history = at least one destructor-issued del met '
+            'teardown) under random address permutations (both pending orders); (c) ownership rings of 1 (a box owning itself), 2, 3, 5 boxes '
+            'built with ref(), also closed at random inside (a), reclaimed by forced collection, real mark, teardown, or explicit del of one member. non-trivial history = at least one destructor-issued del met '
             'the pending list, the registry, or an already finalised object during a sweep; distinct = distinct history text.')
     trusted_base = ('translate/g_life.py (regex over GC_Rem_Ptr, GC_Sweep, GC_Set, GC_Rem, GC_Del, Cello_Exit, alloc_by, del_by, Box_Del, Thread_Init_Run)',
                     'harness/h_life.c + lean/Driver/Life.lean (correspondence is testing): ledger hooks in probe destructors / arena dealloc / --wrap=free',
                     'the registry layout (robin-hood table) is abstracted to a duplicate-free list; slot order is a quantified parameter (C17 covers the layout)',
                     'the mark phase is a quantified parameter: any marked set (C01 covers marking)',
                     'object identities are never reused within a history in the model (a C address is reused only after free)')
-    assumptions = ('the program deletes an object at most once and never an object that a live Box owns; each object has at most one owner; owners do not own raw objects (known finding F28 of C05)',
+    assumptions = ('the program deletes an object at most once and never an object that a live Box owns; each object has at most one owner (ownership may be cyclic: rings of boxes, self-owning boxes; no raw ring members); owners do not own raw objects (known finding F28 of C05)',
                    'the marked set of a collection is closed under ownership (what the mark phase produces); objects reachable by the program are marked',
                    'new/new_root while the collector is stopped and del_root of a root while it is stopped are not generated: known finding F23 (KF-C06-stopped)',
                    'roots and raw objects are deleted by the program before teardown (documented obligation); destructors do not allocate',
@@ -420,6 +487,23 @@ class C06(Spec):
         for i in range(0, len(ch), 20):
             chunk = ch[i:i+20]
             cs.append(Case(f'chain{i//20}', [l for h, _ in chunk for l in h], meta={'hist': [(hash('\n'.join(h)), c) for h, c in chunk]}))
+        # ownership rings (1 = a box owning itself) under address permutations, every way of reclaiming them
+        rg = []
+        for n in (1, 2, 3, 5):
+            for via in 'cged':
+                for _ in range((3 if quick else 40) * boost):
+                    window = rng.choice([n + 2, 16, 64, 1000])
+                    slots = rng.sample(range(window), n + 1)
+                    hows = ['s'] * n
+                    if rng.random() < 0.25: hows[rng.randrange(n)] = 'r'
+                    mode = 'thread' if rng.random() < 0.35 else 'main'
+                    ordered = rng.random() < 0.8
+                    kinds = None if ordered else [rng.choice('bB') for _ in range(n)]
+                    lines, cov, _ = ring_history(rng, primes, n, slots, hows, via, mode, ordered, kinds)
+                    rg.append((lines, cov))
+        for i in range(0, len(rg), 20):
+            chunk = rg[i:i+20]
+            cs.append(Case(f'ring{i//20}', [l for h, _ in chunk for l in h], meta={'hist': [(hash('\n'.join(h)), c) for h, c in chunk]}))
         return cs
     def nontrivial_items(self, case, c_out, m_out):
         if 'hist' in case.meta:
